@@ -124,6 +124,92 @@ def body(c):
     return res
 
 
+def check_slice(res, c, sm, i_vals, tag):
+    """all clauses of the property on the current outputs of one (unbatched) model"""
+    rates = arr(sm.rates()).reshape(-1) if tag != "pr" else None
+    probs = arr(sm.probabilities()).reshape(-1)
+    if rates is None:
+        rates = arr(sm.rates()).reshape(-1)
+    shape, pinv, mu = i_vals
+    K = c.get("K", 1)
+    ncat = {"constant": 1, "invariant": 2}.get(c["kind"], K + (1 if pinv is not None else 0))
+    tol = 1e-9 if (shape is not None and shape < 0.05) else 1e-12
+    d = {"order": tag, "rates": rates.tolist(), "probs": probs.tolist(), "shape": shape, "pinv": pinv, "mu": mu}
+    if rates.shape != (ncat,) or probs.shape != (ncat,):
+        return res.fail("shape", d)
+    er, ep = sitecat.categories(c["kind"], K, shape, pinv, mu)
+    o1 = np.lexsort((probs, rates))
+    o2 = np.lexsort((ep, er))
+    if np.max(np.abs(rates[o1] - er[o2]) / np.maximum(np.abs(er[o2]), 1e-300)) > tol * 10 or np.max(np.abs(probs[o1] - ep[o2])) > 1e-14:
+        d.update(expected_rates=er.tolist(), expected_probs=ep.tolist())
+        return res.fail("stale_or_wrong_after_update", d)
+    target = 1.0 if mu is None else mu
+    if abs(float((rates * probs).sum()) - target) > tol * target:
+        return res.fail("mean_rate_after_update", d)
+    return None
+
+
+@st.composite
+def update_cases(draw):
+    c = draw(cases())
+    c["ss"] = []
+    for k in ("shape", "pinv", "mu"):
+        if k in c:
+            c[k] = c[k][:1]
+    steps = []
+    for _ in range(draw(st.integers(1, 4))):
+        st_ = {"order": draw(st.sampled_from(["rp", "pr", "r", "p"])), "route": draw(st.sampled_from(["assign", "inplace"]))}
+        which = [k for k in ("shape", "pinv", "mu") if k in c]
+        if which:
+            k = draw(st.sampled_from(which))
+            st_["param"] = k
+            st_["value"] = draw({"shape": logu(1e-2, 1e2), "pinv": fl(0.0, 0.95), "mu": logu(1e-3, 1e3)}[k])
+        steps.append(st_)
+    c["steps"] = steps
+    c["first"] = draw(st.sampled_from(["rp", "pr", "r", "p", "none"]))
+    return c
+
+
+def update_body(c):
+    """one model object: evaluate, update a parameter through the public interface, evaluate again (in either
+    accessor order) - every clause must hold at the CURRENT parameter values"""
+    sm, dic = tt.build(spec_of(c))
+    cur = {k: (c[k][0] if k in c else None) for k in ("shape", "pinv", "mu")}
+    res = Res(nontrivial=bool(c["steps"]) and any("param" in s_ for s_ in c["steps"]) and c["kind"] != "constant",
+              key=(c["kind"], c.get("K"), c["first"], [(s_["order"], s_.get("param"), s_["route"]) for s_ in c["steps"]], [round(x, 6) for x in c.get("shape", []) + c.get("pinv", []) + c.get("mu", [])]),
+              labels=(c["kind"], "update", "first_" + c["first"]) + tuple("order_" + s_["order"] for s_ in c["steps"]), tags={"cls": c["kind"], "history": True})
+
+    def touch(order):
+        if order in ("rp", "r"):
+            sm.rates()
+        if order in ("rp", "pr", "p"):
+            sm.probabilities()
+        if order == "pr":
+            sm.rates()
+
+    if c["first"] != "none":
+        touch(c["first"])
+    for s_ in c["steps"]:
+        if "param" in s_:
+            p = dic[s_["param"]]
+            if s_["route"] == "assign":
+                p.tensor = torch.tensor([s_["value"]])
+            else:
+                with torch.no_grad():
+                    p.tensor.fill_(s_["value"])
+                p.fire_parameter_changed()
+            cur[s_["param"]] = s_["value"]
+        # partial observation in the given order, then the full check in the same order
+        order = s_["order"]
+        if order in ("r", "p"):
+            touch(order)
+            order = "rp" if order == "r" else "pr"
+        f = check_slice(res, c, sm, (cur["shape"], cur["pinv"], cur["mu"]), order)
+        if f is not None:
+            return res
+    return res
+
+
 def grid(tier):
     out = []
     shapes = [0.01, 0.05, 0.2, 0.5, 1.0, 2.0, 7.0, 30.0, 100.0]
@@ -140,5 +226,6 @@ def grid(tier):
 def subchecks(tier):
     return [
         Sub("random", body, strategy=cases, quick=3000, thorough=60000, pretags=lambda c: {"cls": c["kind"]}),
+        Sub("update", update_body, strategy=update_cases, quick=1500, thorough=20000, pretags=lambda c: {"cls": c["kind"]}),
         Sub("grid", body, enumerate=grid, exhaustive=True, pretags=lambda c: {"cls": c["kind"]}),
     ]
